@@ -1,6 +1,19 @@
+mod c03;
+mod c04;
+mod c05;
 mod c13;
+mod compose;
 mod lifecycle;
 
 fn main() {
-    vmon::run_main(&[("C01", lifecycle::run_c01), ("C02", lifecycle::run_c02), ("C13", c13::run)]);
+    vmon::run_main(&[
+        ("C01", lifecycle::run_c01),
+        ("C02", lifecycle::run_c02),
+        ("C03", c03::run),
+        ("C04", c04::run),
+        ("C05", c05::run),
+        ("C06", compose::run_c06),
+        ("C13", c13::run),
+        ("C58", compose::run_c58),
+    ]);
 }
